@@ -63,8 +63,9 @@ def impl_pair(a, b, ser):
     return [g(lambda: a.is_descendant_of(b)), g(lambda: a.is_ancestor_of(b)), ca if isinstance(ca, str) else (None if ca is None else ser.of(ca))]
 
 
-def check_tree(ctx, out, spec, tag):
-    tree = adapter.build(spec, ctx.pool)
+def check_tree(ctx, out, spec, tag, tree=None):
+    if tree is None:
+        tree = adapter.build(spec, ctx.pool)
     ser = adapter.Serials()
     ser.by_obj[id(tree.system_root)] = 0
     ser.keep.append(tree.system_root)
@@ -74,7 +75,7 @@ def check_tree(ctx, out, spec, tag):
         raise core.MachineryError(f"driver: {resp}")
     nodes = {ser.of(n): n for n in tree}
     size = len(nodes)
-    nontriv = size >= 3 and gen.spec_height(spec) >= 2
+    nontriv = size >= 3 and tree.calc_height() >= 2
     for rec in resp["nodes"]:
         n = nodes[rec["id"]]
         impl = impl_node(tree, n, ser)
@@ -142,6 +143,33 @@ def run(ctx):
         spec = gen.label_forest(shape, ({"a": ctx.rng.choice([0, 1, 2, 18, 19, 24, 25, 12]), "did": 5000 + next(cnt)} for _ in range(n)))
         check_tree(ctx, out, spec, "rnd")
         out.dist["random_tree"] += 1
+    # trees REACHED through mutation histories (add / shortcuts / copies / moves / removals with keep_children / sort / set_data):
+    # the relationship queries must agree with the shape the tree has now
+    import histories as H
+    import world
+
+    for h in range(120 if ctx.thorough else 25):
+        impl = world.ImplWorld(ctx.pool)
+        impl.new(False)
+        impl.new(False)
+        impl._bij = world.Bij()
+        log = []
+        for i in range(ctx.rng.randrange(5, 40 if ctx.thorough else 25)):
+            ti = 0 if ctx.rng.random() < 0.8 else 1
+            op = H.random_op(ctx.rng, impl, ti, labels=H.STR + [18, 19], malformed=0.05,
+                             ops=["add", "add", "add", "shortcut", "addnode", "addtree", "move", "move", "remove", "remove", "sort", "setdata"])
+            if op["op"] == "w.remove":
+                op["keep"] = ctx.rng.random() < 0.6
+            impl.apply(op)
+            log.append(H.clean(op))
+        for ti in (0, 1):
+            t = impl.trees[ti]
+            before = len(out.oracle_failures)
+            try:
+                check_tree(ctx, out, {"history": log, "tree": ti}, "hist", tree=t)
+            except Exception as e:  # noqa  -- an accessor raised on a reachable tree
+                out.fail(dict(kind="history", spec={"history": log, "tree": ti}), f"relationship queries raised {type(e).__name__}: {e} on a tree reached by {len(log)} operations")
+        out.dist["history_tree"] += 1
     return out
 
 
@@ -154,7 +182,19 @@ def replay(ctx, rp):
     from props.c06 import tuplify
 
     out = core.Outcome()
-    check_tree(ctx, out, tuplify_d(rp["case"]["spec"]), "replay")
+    spec = rp["case"]["spec"]
+    if isinstance(spec, dict) and "history" in spec:
+        import world
+
+        impl = world.ImplWorld(ctx.pool)
+        impl.new(False)
+        impl.new(False)
+        impl._bij = world.Bij()
+        for op in spec["history"]:
+            impl.apply(dict(op))
+        check_tree(ctx, out, spec, "replay", tree=impl.trees[spec["tree"]])
+    else:
+        check_tree(ctx, out, tuplify_d(spec), "replay")
     return dict(failures=out.oracle_failures[:5], disagreements=out.disagreements[:5], property_holds=not out.oracle_failures)
 
 
